@@ -572,7 +572,7 @@ class Program:
                 v = ("upd", prev, tuple(elems), newv)
             elif kind == "mutborrow":
                 prev = self.val_local_in(fn, body, (b, i), local)
-                v = ("mut", prev, fn.path, b, i)
+                v = self._swap_partner(fn, body, b, i) or ("mut", prev, fn.path, b, i)
             else:
                 v = ("unknown", "defkind")
         finally:
@@ -594,6 +594,10 @@ class Program:
             if v is not None:
                 return v
         fnp = fn.path + ("#" + body.tag if body.tag else "")
+        if isinstance(callee, str) and len(args) == 2 and re.search(r"array::<impl \[T; N\]>::map$", callee):
+            am = self._array_map_value(fn, body, b, t, fnp, args)
+            if am is not None:
+                return am
         if isinstance(callee, str):
             perm = getattr(self, "_arg_perm", None)
             if perm:
@@ -604,6 +608,74 @@ class Program:
             if m is not None:
                 return m
         return ("call", fnp, b, callee, args)
+
+    def _swap_partner(self, fn, body, b, i):
+        """`std::mem::swap(&mut a, &mut b)` on two plain locals: the borrow at (b, i) feeds a swap whose other operand is a
+        borrow of local `other` in the same block — after the call this local holds `other`'s previous value."""
+        blk = body.blocks[b]
+        t = blk["term"]
+        if t["k"] != "call":
+            return None
+        p, fr = callee_of(t)
+        if not p or not re.search(r"^(core|std)::mem::swap$", generic_path(p)) or len(t["args"]) != 2:
+            return None
+        st = blk["stmts"][i]
+        if st["place"]["p"]:
+            return None
+        temps = []
+        for a in t["args"]:
+            if a["k"] not in ("copy", "move") or a["place"]["p"]:
+                return None
+            temps.append(a["place"]["l"])
+        # two-phase borrows: `_a = &mut x; _b = &mut *_a; swap(move _b, ..)`
+        def base(tl):
+            for st2 in blk["stmts"]:
+                if st2["k"] == "assign" and not st2["place"]["p"] and st2["place"]["l"] == tl and st2["rv"]["k"] == "ref" and st2["rv"].get("mut"):
+                    pp = st2["rv"]["place"]
+                    if len(pp["p"]) == 1 and pp["p"][0]["k"] == "deref":
+                        return pp["l"]
+            return tl
+        temps = [base(tl) for tl in temps]
+        if st["place"]["l"] not in temps or temps[0] == temps[1]:
+            return None
+        other_t = temps[1 - temps.index(st["place"]["l"])]
+        for j, st2 in enumerate(blk["stmts"]):
+            if st2["k"] == "assign" and not st2["place"]["p"] and st2["place"]["l"] == other_t and st2["rv"]["k"] == "ref" and st2["rv"].get("mut") \
+                    and not st2["rv"]["place"]["p"]:
+                return self.val_local_in(fn, body, (b, j), st2["rv"]["place"]["l"])
+        return None
+
+    def _array_map_value(self, fn, body, b, t, fnp, args):
+        """`arr.map(f)` on a fixed-size array is the array literal [f(arr[0]), .., f(arr[N-1])] (N from the operand's type,
+        N <= 4): a closure with one success exit is applied by substitution, a function item by a call value."""
+        a0 = t["args"][0]
+        ty = None
+        if a0["k"] in ("copy", "move"):
+            ty = a0["place"].get("ty") or body.locals[a0["place"]["l"]]["ty"]
+        elif a0["k"] == "const":
+            ty = a0.get("ty")
+        m = re.search(r"; (\d+)\]$", ty or "")
+        if not m or not (1 <= int(m.group(1)) <= 4):
+            return None
+        n = int(m.group(1))
+        f = args[1]
+        from . import common
+        elems = []
+        for k in range(n):
+            el = proj(args[0], ("i", k))
+            if f[0] == "agg" and f[1] == "closure":
+                cf = self.fn(f[2])
+                if cf is None or cf.body is None or cf.body.back_edges():
+                    return None
+                exs = [x for x in common.exit_sites(self, cf) if x[2] != "err"]
+                if len(exs) != 1:
+                    return None
+                elems.append((k, common.subst_params(exs[0][3], {("param", cf.path, 1): el, ("param", cf.path, 0): f})))
+            elif f[0] == "const" and f[1] == "fn":
+                elems.append((k, ("call", fnp, b, f[2], (el,))))
+            else:
+                return None
+        return ("agg", "array", "array", tuple(elems))
 
     def _vec_macro_value(self, fn, body, b, arg):
         """`vec![a, b, ..]` lowers to Box::new_uninit + a write of the array through a raw pointer +
